@@ -247,7 +247,7 @@ def admissible_orders(hist, limit):
     return out
 
 
-def execute(plan):
+def execute(plan, judge=None, linearize=True):
     probes = dict((p, 0) for p in PROBES)
     viol = []
     if plan.get('server'):
@@ -359,8 +359,13 @@ def execute(plan):
                             'detail': {'uid': u, 'owner': own[u],
                                        'creator':
                                        plan['actors'][h['actor']]['cn']}})
+    if judge is not None:
+        # another check's per-exchange judge over this history (sim/conc.py)
+        judge(plan, complete, own, W.resolve)
     # ---- linearizability by sequential re-execution ---------------------
-    if not S.aborted and not unanswered:
+    if not linearize:
+        pass
+    elif not S.aborted and not unanswered:
         # witness order: a request that entered the engine is placed at
         # its first lock acquisition, a request answered by the session
         # alone (it never took the lock) at its return
